@@ -35,17 +35,19 @@ def main():
     chk = Check("C07")
     conds = []
     pl = plan(chk.tier)
-    for s, nh, store, up in pl:
+    for qi, (s, nh, store, up) in enumerate(pl):
+        qg = qi % 3
         ts = ",".join(map(str, s))
         conds.append(Cond("vf.ch.h_engine", "check_lifecycle_q" if chk.tier == "quick" else "check_lifecycle", f"lifecycle for epoch types INITIAL,{ts} (needs_history={nh}, {up} of 3 epochs configured up-front, others appended while sampling): "
                           "start / duration transitions with within-epoch time 0..d-1 and continuing global time / end / tune iff adaptation (with that epoch's recorded history on request) / "
                           "exactly one end_warmup immediately before the first posterior epoch",
-                          timeout_s=600 if chk.tier == "quick" else 1200, env={"TYPES": ts, "NK": "2", "NH": nh, "STORE": str(store), "UPFRONT": str(up)}, signature=f"lifecycle:{ts}"))
+                          timeout_s=600 if chk.tier == "quick" else 1200, env={"TYPES": ts, "NK": "2", "NH": nh, "STORE": str(store), "UPFRONT": str(up), "QG": str(qg)}, signature=f"lifecycle:{ts}"))
     if chk.tier == "thorough":
-        for s4, nh, store, up in [((1, 2, 3, 4), "10", 1, 2), ((2, 2, 4, 4), "01", 1, 4), ((1, 3, 4, 4), "11", 0, 1), ((3, 1, 2, 4), "10", 1, 3), ((1, 4, 4, 4), "01", 0, 0), ((2, 1, 1, 3), "11", 1, 2)]:
+        for qg, (s4, nh, store, up) in enumerate([((1, 2, 3, 4), "10", 1, 2), ((2, 2, 4, 4), "01", 1, 4), ((1, 3, 4, 4), "11", 0, 1), ((3, 1, 2, 4), "10", 1, 3), ((1, 4, 4, 4), "01", 0, 0), ((2, 1, 1, 3), "11", 1, 2)]):
+            qg = qg % 3
             ts = ",".join(map(str, s4))
             conds.append(Cond("vf.ch.h_engine", "check_all4", f"four epochs INITIAL,{ts} (needs_history={nh}, {up}/4 up-front): lifecycle, stored chains and key terms", timeout_s=2400,
-                              env={"TYPES": ts, "NK": "2", "NH": nh, "STORE": str(store), "UPFRONT": str(up)}, signature=f"four-epochs:{ts}"))
+                              env={"TYPES": ts, "NK": "2", "NH": nh, "STORE": str(store), "UPFRONT": str(up), "QG": str(qg)}, signature=f"four-epochs:{ts}"))
     # the fake environment is validated on every run against the real Engine on real JAX (jit disabled) on three fixed schedules
     from ..ch import validate_fake
     ok, msg, n = validate_fake.compare()
